@@ -211,6 +211,13 @@ func (g *Gen) specType(name string, pkg *types.Package) (*Sort, types.Type) {
 	case "error":
 		return sIface, types.Universe.Lookup("error").Type()
 	}
+	if strings.HasPrefix(name, "[]") {
+		_, et := g.specType(name[2:], pkg)
+		if et != nil {
+			return sSlice, types.NewSlice(et)
+		}
+		return sSlice, nil
+	}
 	ptr := false
 	if strings.HasPrefix(name, "*") {
 		ptr = true
@@ -761,6 +768,8 @@ func (e *SpecEnv) evalCall(n ECall) Val {
 		return Val{T: fmt.Sprintf("(f64.bits %s)", x.T), S: bvSort(64), G: types.Typ[types.Uint64]}
 	case "isNaN":
 		return Val{T: fmt.Sprintf("(fp.isNaN %s)", arg(0).T), S: sBool}
+	case "isInf":
+		return Val{T: fmt.Sprintf("(fp.isInfinite %s)", arg(0).T), S: sBool}
 	case "visited":
 		// visited(k): key k already iterated in the (single) map range of this function
 		for _, name := range sortedKeys(e.st.ghosts) {
